@@ -57,3 +57,9 @@ def para_unformatted_append(s1, s2):
             exp += c
             blank = False
     return _ok(p, s1 + exp)
+
+
+def para_nbsp(s):
+    p = Paragraph(s)
+    again = Element.from_tag(p.serialize(with_ns=True))
+    return (p.inner_text != s or again.inner_text != s), f"Paragraph({s!r}) reads {p.inner_text!r}, reparsed {again.inner_text!r}"
